@@ -156,11 +156,11 @@ PROPS = {
     },
     "C14": {
         "level": "other",
-        "verus": [],
+        "verus": [("linenum", None)],
         "family": ("c14", {"quick": [], "thorough": []}),
         "kani": {"quick": ["compute_line_number_bounded", "parse_error_new_bounded", "clip_complete", "resolve_is_clip", "parsed_context_line_and_slice"], "thorough": []},
         "technique": "Kani on the real okane-core crate: harness modules injected next to parse/error.rs and parse/adaptor.rs; loop-free harnesses over the full usize domain are complete proofs, string harnesses are bounded",
-        "explanation": "PARTIAL / BOUNDED.  On the real compiled code: compute_line_number(s, pos) = 1 + number of LF before pos; ParsedContext::compute_line_start is that at the entry's span start and as_str is the "
+        "explanation": "(for texts of EVERY length Verus proves compute_line_number on its extracted body - split_at modelled, the filter/count chain rewritten into a counting loop, R42: the line of byte offset pos is one plus the number of LF bytes before it; the Kani harnesses below run the compiled code, bounded) PARTIAL / BOUNDED.  On the real compiled code: compute_line_number(s, pos) = 1 + number of LF before pos; ParsedContext::compute_line_start is that at the entry's span start and as_str is the "
                        "entry's slice; ParseError::new reports the first line of the failed entry, an error span starting at the failure offset and ending inside the remaining text, for every entry start and failure "
                        "offset (text <= 4 characters over {LF, CR, a, ;, a 3-byte character}) — bounded; clip / ParsedSpan::resolve map a tracked span inside the entry to entry-relative offsets without underflow — complete (loop-free, full usize).  "
                        "NOT decided by those harnesses: which file path reaches the diagnostic, and the rendering.  They are exercised, bounded, by the c14 family: one invalid entry (two syntax errors, unbalanced, false "
